@@ -2,7 +2,7 @@ HOOKS = dict(
     guard="verif",
     enable="go build -tags verif (the harness module /verif/harness replaces the btcwallet modules with /repo and its nested modules)",
     baseline_off_cmd='for m in $(cat /w/out/gomods.txt); do MF=$(cd /repo/$m && . /w/out/goenv.sh && gomodflag); (cd /repo/$m && go test $MF -json -vet=off -count=1 -timeout 25m ./...); done',
-    source_commits=["5b644b4", "b6fa4f8", "2d02f0b"],
+    source_commits=["5b644b4", "b6fa4f8", "2d02f0b", "3b8c29c"],
     add_only=True,
 )
 
@@ -15,25 +15,37 @@ NOT_APPLICABLE = {}
 
 CHECKS = {
     "C19": dict(
-        text="Theorems C19_pending_exact/success/failure/reversion/error_unchanged hold for every version table, stored version and "
-             "failure position (unbounded); the model is tied to walletdb/migration by running migration.Upgrade on a real bbolt "
-             "file for a failure at every position plus random tables and comparing outcome, invoked sequence, stored version and data; plus the REAL wtxmgr and "
-             "waddrmgr migration managers through wallet.Open (newer version of either component refused with the whole file unchanged, incl. the roll-back of the "
-             "other component's already applied migration in the same database transaction; the real drop-history migration applied and the latest version recorded).",
-        note="Trusted: Coq kernel+vm_compute, hand-written model Migrate/Migrate.v, harness and driver; atomicity of the enclosing "
-             "walletdb.Update is C11's subject (modelled here as restore-on-error). No axioms (Print Assumptions: closed).",
+        text="11 theorems. Pending list exact and ascending (model only). The success, failure and refusal clauses and the all-or-nothing clauses "
+             "for one and for several services are proved from five facts regenerated from walletdb/migration/manager.go and from EVERY call site of "
+             "migration.Upgrade (migration / SetVersion / manager errors returned, one enclosing walletdb.Update, the Update closure returns the "
+             "error; source reader with behavioural probe fallback) plus C11's commit-iff-nil; C19_premises_needed exhibits the violating history "
+             "for each fact being false. The model performs the upgrade as writes on a working copy that nothing undoes (failing migrations write "
+             "first), so 'failure leaves the database unchanged' depends on those facts. Tied to the code by instrumented services (1-3 per call, "
+             "failing migrations / SetVersion at every position) and by the REAL wtxmgr/waddrmgr managers on address-manager v5/v6/v7, txmgr v1 "
+             "and newer-than-known databases through wallet.Open, migration.Upgrade and the components' own Open, with a write failure injected at "
+             "every write; versions read back via CurrentVersion, the raw key and Open.",
+        note="Trusted: Coq kernel+vm_compute, the hand-written model Migrate/Migrate.v, the shape reader/probe (harness/cmd/extract-c19, c19 -probe), "
+             "stack-based attribution of real migrations (a migration that writes nothing is not seen). Address-manager layouts below version 5 are "
+             "not built. Atomicity of walletdb.Update itself is C11. No axioms (Print Assumptions: closed).",
     ),
     "C18": dict(
-        text="Model Queue/Queue.v: labelled transition system transcribed from chain/queue.go's worker (select A over chanIn/quit with an inner "
-             "non-blocking select chanOut/quit/default->PushBack; select B over chanIn->PushBack / chanOut<-Front;Remove / quit), parametric in both "
-             "channel capacities (the code is cin=0, cout=bufferSize). Proved for every capacity and every schedule, unbounded: conservation and order "
-             "(rcvd ++ chanOut ++ overflow ++ held ++ chanIn = sent), received is a prefix and exact when drained, drain always possible, producer never "
-             "blocked (at most 2 consumer-free worker steps re-enable Send; any burst accepted with zero consumer steps), after Stop the quit step is enabled "
-             "at every control point and worker-only runs are bounded, and soundness of the correspondence checker. Correspondence: the real "
-             "chain.ConcurrentQueue with bufferSize in {0,1,2,5,20}, scripted and concurrent producer/consumer plans, send timeouts, goroutine-count probe after Stop.",
-        note="PARTIAL: liveness under Go's scheduler is not proved ('Stop terminates' = quit always enabled + bounded worker-only runs; 'never blocked' = bounded "
-             "consumer-free worker steps re-enable send); both are exercised by timeouts/goroutine probes. Go memory model taken as atomic interleaving. "
-             "Only ConcurrentQueue (bitcoind backend) is exercised; btcd.go/neutrino.go use private inline queue loops of the cin=0,cout=0 shape. No axioms."),
+        text="Two models. (1) Queue/Queue.v: labelled transition system transcribed from chain/queue.go's worker (ConcurrentQueue, bitcoind backend), "
+             "parametric in both channel capacities. (2) Queue/SliceQueue.v: the inline slice-queue loop shared by RPCClient.handler (btcd.go) and "
+             "NeutrinoClient.notificationHandler (neutrino.go) with its four locals as independent state variables, best-block bookkeeping, a panic "
+             "flag, parametric in a seven-fact shape read from the source by harness/cmd/extract-c18 (Generated/QueueSites.v; both sites proved "
+             "equal to the canonical shape by computation; each fact shown necessary by a violating run). For both, proved for every schedule, "
+             "unbounded: conservation and order (received ++ pending = sent), received is a prefix and exact when drained, each receive delivers the "
+             "oldest pending item, control state (never panics; armed iff non-empty), best block follows delivery, producer never blocked, any "
+             "burst accepted without consumer, drain possible, stop enables quit and worker-only runs are bounded, terminated worker is final, "
+             "checker soundness (21 theorems). Correspondence: the real chain.ConcurrentQueue (bufferSize in {0,1,2,5,20}); the REAL btcd handler "
+             "loop (real NewRPCClient+Start against an in-process loopback websocket stand-in) and the REAL neutrino loop (stub chain service), "
+             "hand-overs through the real callbacks or through rpcclient's dispatcher; scripted and concurrent producer/consumer plans, quit in "
+             "mid-burst, child process per case so a handler panic is attributed; wallet.NotificationServer judged for order/loss/duplication.",
+        note="PARTIAL: liveness under Go's scheduler is not proved ('Stop terminates' = quit always enabled + bounded worker-only runs); the "
+             "closed-enqueue branch is modelled but never executed; the callbacks' own select {enqueue / quit} is exercised but not modelled; no "
+             "behavioural fallback for the slice-queue shape facts (an unrecognised shape is a broken obligation); NotificationServer is outside "
+             "model and theorems (it is a rendezvous, not a queue: a slow RPC client stalls connectBlock by design - observation, not judged). "
+             "Go memory model taken as atomic interleaving. No axioms."),
     "C17": dict(
         text="18 theorems (Print Assumptions: closed) about the wrapper logic of snacl.go, for every secretbox/scrypt/sha256 satisfying the named ideal "
              "laws. Ciphertexts: decrypt after encrypt = id incl. the empty plaintext; any other key, any modification of any single byte of nonce||box "
